@@ -5,6 +5,7 @@ package main
 
 import (
 	"fmt"
+	"runtime"
 	"runtime/debug"
 	"sort"
 	"strings"
@@ -207,6 +208,7 @@ func genC10(g *Gen) {
 	r := g.R
 	tc := TreeCfg{Keys: []string{"a", "b", "e", "l", "n"}, MaxDepth: 3, MaxWidth: 3, PNil: 2, PEmpty: 3}
 	for i := 0; i < g.N; i++ {
+		runtime.GC() // between cases only: within a case no object may be freed and its address reused
 		opts := []ucfg.Option{ucfg.PathSep(".")}
 		varexp := r.P(1, 3)
 		if varexp {
@@ -285,6 +287,57 @@ func genC10(g *Gen) {
 				"destination after": dstAfter.desc, "then": fdesc,
 				"replay": map[string]interface{}{"src": encTree(srcData), "dst": encTree(dstData), "policy": policyOpts[pol].name, "mode": mode, "varexp": varexp}},
 			Tags: []string{"source:" + src.how, "policy:" + policyOpts[pol].name, fmt.Sprintf("follows=%d", k), fmt.Sprintf("varexp=%v", varexp)}, Nontrivial: true})
+	}
+	aliasCases(g, tc)
+}
+
+// aliasCases: merging into a setting of the destination that is a reference to another setting
+// must leave that other setting alone (the merge goes into the reference's own value).
+func aliasCases(g *Gen, tc TreeCfg) {
+	r := g.R
+	for i := 0; i < g.N/5+4; i++ {
+		opts := []ucfg.Option{ucfg.PathSep("."), ucfg.VarExp}
+		x := randMap(r, tc, 1)
+		x["p"] = uint64(1)
+		dstData := map[string]interface{}{"x": x, "a": "${x}", "y": randTree(r, tc, 1),
+			"lst": []interface{}{map[string]interface{}{"q": "v"}, "${lst.0}"}, "z": "${x.p}"}
+		srcData := map[string]interface{}{"a": randMap(r, tc, 1)}
+		srcData["a"].(map[string]interface{})["k"] = uint64(2)
+		if r.Bool() {
+			srcData["lst"] = []interface{}{nil, map[string]interface{}{"w": true}}
+		}
+		pol := r.Intn(len(policyOpts))
+		if policyOpts[pol].h == 2 { // ReplaceValues drops every setting the source does not mention
+			pol = 0
+		}
+		mo := append([]ucfg.Option{}, opts...)
+		if p := policyOpts[pol]; p.opt != nil {
+			mo = append(mo, p.opt)
+		}
+		g.Mark(map[string]interface{}{"dst": encTree(dstData), "src": encTree(srcData), "policy": policyOpts[pol].name})
+		dst, err := ucfg.NewFrom(dstData, opts...)
+		if err != nil {
+			g.Skip("not built")
+			continue
+		}
+		before := ucfg.VerifDump(dst)
+		var merr error
+		if p, _ := guard(func() { merr = dst.Merge(srcData, mo...) }); p {
+			continue
+		}
+		after := ucfg.VerifDump(dst)
+		keys := []string{"x", "y", "z"}
+		if _, ok := srcData["lst"]; !ok {
+			keys = append(keys, "lst")
+		}
+		ck := make([]string, len(keys))
+		for j, k := range keys {
+			ck[j] = coqStr(k)
+		}
+		g.Add(Case{Coq: fmt.Sprintf("CAlias10 %s %s %s %s", coqStr("merge into a reference"), coqValue(before), coqValue(after), coqList(ck)),
+			Desc: map[string]interface{}{"kind": "alias", "destination": descTree(dstData), "source": descTree(srcData), "policy": policyOpts[pol].name,
+				"merge error": merr != nil, "before": descValue(before), "after": descValue(after), "must keep": keys},
+			Tags: []string{"alias", "policy:" + policyOpts[pol].name}, Nontrivial: true})
 	}
 }
 
@@ -415,6 +468,7 @@ func genC11(g *Gen) {
 	reads := c11Reads()
 	tc := TreeCfg{Keys: []string{"a", "b", "x", "k"}, MaxDepth: 2, MaxWidth: 3, PNil: 3, PEmpty: 3}
 	for i := 0; i < g.N; i++ {
+		runtime.GC() // between cases only
 		data := map[string]interface{}{
 			"a": randScalar(r), "b": "${a}", "s": map[string]interface{}{"x": randTree(r, tc, 1), "r": "${a}-${s.x:d}"},
 			"m": map[string]interface{}{"k": randMap(r, tc, 1), "j": nil}, "l": []interface{}{randTree(r, tc, 1), nil, "${l.0:e}"},
